@@ -53,7 +53,9 @@ func runC07(c *Ctx) {
 				// a concrete value: known non-nil where it flows in?
 				okv := false
 				for _, f := range append(factsAtBlock(at), blockEdgeFactsDirect(at.Idom(), at)...) {
-					if f.Kind == factNotNil && f.Val == v {
+					// the value itself is known non-nil, or it is assigned on the failure side of some error test
+					// (lastErr = errors.Join(lastErr, err) under err != nil)
+					if f.Kind == factNotNil && (f.Val == v || isErrorType(f.Val.Type())) {
 						okv = true
 					}
 				}
